@@ -77,3 +77,88 @@ def corr_encode(ctx, protos, per_proto, ns=(0, 1, 2)):
             else:
                 all_bad.append((p, a, n, impl, o))
     return ncases, all_bad, unknown, failed
+
+
+def corr_decode(ctx, protos, per_proto):
+    """The traced decode trees against the real decode(): frames built by the class's own _build_packet from
+    arbitrary field values (so that checksum / fixed-field checks fail as well as pass) and frames from encode().
+    The base decoder supplies the field values to both sides.  Returns (n_cases, disagreements)."""
+    import os
+    from pyIRDecoder import protocol_base, IRException
+    files = []
+    for p in protos:
+        name = p['name']
+        m = protomodel.model_of(p)
+        if m['status'].get('decode') != 'ok' or not p['parameters']:
+            continue
+        frames = []
+        for a in gen_inputs.param_assignments(p, ctx.rng, max(1, per_proto // 2)):
+            c, e = engine.fresh_encode(p, a)
+            if c is not None:
+                frames.append((a, list(c.normalized_rlc[0])))
+        for _ in range(per_proto):
+            kw = {}
+            for nm, start, stop in p['parameters']:
+                kw[nm] = ctx.rng.getrandbits(stop - start + 1)
+            # start from a valid frame's fields when possible so that only some checks fail
+            try:
+                with engine.class_guard(p['cls']):
+                    fr = p['cls']._build_packet(**kw)
+                frames.append((kw, list(fr)))
+            except Exception:  # noqa
+                pass
+        cases, meta = [], []
+        for a, fr in frames:
+            with engine.class_guard(p['cls']):
+                try:
+                    base = protocol_base.IrProtocolBase.decode(p['cls'](), list(fr), p['frequency'])
+                except Exception:  # noqa
+                    continue
+                vals = []
+                ok = True
+                for nm, start, stop in p['parameters']:
+                    v = base._data.get(nm)
+                    if v is None:
+                        ok = False
+                        break
+                    vals.append((int(v), v.num_bits))
+                if not ok:
+                    continue
+                try:
+                    code = p['cls']().decode(list(fr), p['frequency'])
+                    impl = [0] + [int(code._data[nm]) for nm, _, _ in p['parameters']]
+                except Exception as e:  # noqa
+                    impl = [engine.err_code(e)]
+                finally:
+                    vlib.drain_workers()
+            fl = ' '.join('(mkIW %s %s)' % (vlib.z(v), vlib.z(w)) for v, w in vals)
+            fll = '[' + '; '.join('mkIW %s %s' % (vlib.z(v), vlib.z(w)) for v, w in vals) + ']'
+            names = '[' + '; '.join(protoinfo.coq_str(nm) for nm, _, _ in p['parameters']) + ']'
+            cases.append(('(run_dec_full %s %s (tree_eval (dec_%s %s)))' % (names, fll, name, fl), impl))
+            meta.append((p, a, impl))
+        if cases:
+            files.append((name, cases, meta))
+    vfiles = []
+    for name, cases, meta in files:
+        fn = os.path.join(ctx.build, 'corrD_%s.v' % name)
+        with open(fn, 'w') as fh:
+            fh.write(vlib.CASES_PREAMBLE)
+            fh.write('Require Import PyIR.Base.Result PyIR.IW.IW PyIR.Proto.Model Gen.P_%s.\nImport Coq.Strings.String.\n' % name)
+            fh.write('Definition cases : list (list Z * list Z) := [\n')
+            fh.write(';\n'.join('  (%s, %s)' % (c, vlib.zlist(e)) for c, e in cases))
+            fh.write('\n].\nEval vm_compute in mismatches (fun x : list Z => x) cases.\n')
+        vfiles.append(fn)
+    res = vlib.coqc_many(ctx.build, vfiles, timeout=600)
+    bad = []
+    n = 0
+    for (name, cases, meta), fn in zip(files, vfiles):
+        ok, out = res[fn]
+        n += len(cases)
+        mm = vlib.parse_mismatches(out) if ok else None
+        if mm is None:
+            ctx.note('decode correspondence file for %s failed: %s' % (name, out[-300:]))
+            continue
+        for i, o in mm:
+            p, a, impl = meta[i]
+            bad.append((p, a, impl, o))
+    return n, bad
